@@ -22,7 +22,9 @@ META = {
 }
 
 FLAGS = list(itertools.product([True, False], repeat=4))
-PLANS = {"none": [], "616-1216": [(0, 6, 16), (72, 12, 16)], "34-38-34": [(0, 3, 4), (72, 3, 8), (108, 3, 4)], "late34": [(96, 3, 4)], "168": [(0, 16, 8)], "24-84": [(0, 2, 4), (48, 8, 4)], "38": [(0, 3, 8)], "34": [(0, 3, 4)], "68-24": [(0, 6, 8), (144, 2, 4)], "34-58": [(0, 3, 4), (72, 5, 8)], "44-34": [(0, 4, 4), (96, 3, 4)]}
+PLANS = {"none": [], "midbar-44-68": [(0, 4, 4), (48, 6, 8)], "616-1216": [(0, 6, 16), (72, 12, 16)], "34-38-34": [(0, 3, 4), (72, 3, 8), (108, 3, 4)], "late34": [(96, 3, 4)], "168": [(0, 16, 8)], "24-84": [(0, 2, 4), (48, 8, 4)], "38": [(0, 3, 8)], "34": [(0, 3, 4)], "68-24": [(0, 6, 8), (144, 2, 4)], "34-58": [(0, 3, 4), (72, 5, 8)], "44-34": [(0, 4, 4), (96, 3, 4)]}
+
+VALID_PLANS = [p_ for p_ in PLANS if not p_.startswith("midbar")]      # signatures on bar boundaries (C01's input constraint)
 
 
 def _fresh_process_defaults(cls):
@@ -290,7 +292,7 @@ def queries(tier, seed):
             qs.append(q_lattice(fl, 2, 1, 1))
             # the library-wide default of 8 bins: its bin values (24, 40, ...) collide with note values (24)
             qs.append(q_lattice(fl, 8, 1, 0, v2max=40))
-        for plan in PLANS:
+        for plan in VALID_PLANS:
             qs.append(q_onset(FLAGS[0], 1, plan, 100))
         qs.append(q_onset(FLAGS[15], 2, "34-58", 100))
         qs.append(q_onset(FLAGS[15], 2, "24-84", 60))       # both ends of the time-signature range (2 and 16 eighths)
@@ -313,7 +315,7 @@ def queries(tier, seed):
                     qs.append(q_lattice(fl, bins, ntr, 2 if bins <= 2 else 0, v2max=127 if bins <= 2 else 40))
             qs.append(q_lattice(fl, 2, 1, 3, nv=(6, 12, 24), sympitch=True))
             qs.append(q_lattice(fl, 1, 3, 1))
-        for plan in PLANS:
+        for plan in VALID_PLANS:
             for fl, bins in ((FLAGS[0], 1), (FLAGS[15], 2), (FLAGS[6], 5)):
                 qs.append(q_onset(fl, bins, plan, 120))
                 qs.append(q_cap(fl, bins, plan, 120))
